@@ -215,3 +215,45 @@ pub mod raw {
         true
     }
 }
+
+// ------------------------------------------------------------------ scalar multiplication algorithms (layer G)
+use crate::backend::serial::scalar_mul as ssm;
+use crate::traits::{MultiscalarMul, VartimeMultiscalarMul};
+#[no_mangle] #[inline(never)] pub fn vp_g_variable_base(p: &EdwardsPoint, s: &Scalar) -> EdwardsPoint { ssm::variable_base::mul(p, s) }
+#[no_mangle] #[inline(never)] pub fn vp_g_vartime_double_base(a: &Scalar, p: &EdwardsPoint, b: &Scalar) -> EdwardsPoint { ssm::vartime_double_base::mul(a, p, b) }
+#[no_mangle] #[inline(never)] pub fn vp_g_mul_base(s: &Scalar) -> EdwardsPoint { EdwardsPoint::mul_base(s) }
+#[no_mangle] #[inline(never)] pub fn vp_g_ed_mul(p: &EdwardsPoint, s: &Scalar) -> EdwardsPoint { p * s }
+#[no_mangle] #[inline(never)] pub fn vp_g_mul_by_pow_2(p: &EdwardsPoint, k: u32) -> EdwardsPoint { p.mul_by_pow_2(k) }
+#[no_mangle] #[inline(never)] pub fn vp_g_mul_by_cofactor(p: &EdwardsPoint) -> EdwardsPoint { p.mul_by_cofactor() }
+#[no_mangle] #[inline(never)] pub fn vp_g_mont_mul(p: &MontgomeryPoint, s: &Scalar) -> MontgomeryPoint { p * s }
+#[no_mangle] #[inline(never)] pub fn vp_g_mont_mul_clamped(p: &MontgomeryPoint, b: &[u8; 32]) -> MontgomeryPoint { p.mul_clamped(*b) }
+#[no_mangle] #[inline(never)] pub fn vp_g_ed_mul_clamped(p: &EdwardsPoint, b: &[u8; 32]) -> EdwardsPoint { p.mul_clamped(*b) }
+#[no_mangle] #[inline(never)] pub fn vp_g_ed_mul_base_clamped(b: &[u8; 32]) -> EdwardsPoint { EdwardsPoint::mul_base_clamped(*b) }
+#[cfg(feature = "alloc")]
+#[no_mangle] #[inline(never)] pub fn vp_g_straus_ct_1(s: &[Scalar; 1], p: &[EdwardsPoint; 1]) -> EdwardsPoint { ssm::straus::Straus::multiscalar_mul(s.iter(), p.iter()) }
+#[cfg(feature = "alloc")]
+#[no_mangle] #[inline(never)] pub fn vp_g_straus_ct_2(s: &[Scalar; 2], p: &[EdwardsPoint; 2]) -> EdwardsPoint { ssm::straus::Straus::multiscalar_mul(s.iter(), p.iter()) }
+#[cfg(feature = "alloc")]
+#[no_mangle] #[inline(never)] pub fn vp_g_straus_ct_3(s: &[Scalar; 3], p: &[EdwardsPoint; 3]) -> EdwardsPoint { ssm::straus::Straus::multiscalar_mul(s.iter(), p.iter()) }
+#[cfg(feature = "alloc")]
+#[no_mangle] #[inline(never)] pub fn vp_g_straus_ct_0() -> EdwardsPoint { let s: [Scalar; 0] = []; let p: [EdwardsPoint; 0] = []; ssm::straus::Straus::multiscalar_mul(s.iter(), p.iter()) }
+#[cfg(feature = "alloc")]
+#[no_mangle] #[inline(never)] pub fn vp_g_straus_vt_2(s: &[Scalar; 2], p: &[EdwardsPoint; 2], out: &mut EdwardsPoint) -> bool {
+    match ssm::straus::Straus::optional_multiscalar_mul(s.iter(), p.iter().map(|x| Some(*x))) { Some(r) => { *out = r; true } None => false }
+}
+macro_rules! vp_table { ($name:ident, $t:ty) => {
+    #[no_mangle] #[inline(never)] pub fn $name(p: &EdwardsPoint, s: &Scalar, base_out: &mut EdwardsPoint) -> EdwardsPoint {
+        use crate::traits::BasepointTable;
+        let t = <$t>::create(p); *base_out = t.basepoint(); t.mul_base(s)
+    } } }
+#[cfg(feature = "precomputed-tables")]
+vp_table!(vp_g_table_r16, crate::edwards::EdwardsBasepointTableRadix16);
+#[cfg(feature = "precomputed-tables")]
+vp_table!(vp_g_table_r32, crate::edwards::EdwardsBasepointTableRadix32);
+#[cfg(feature = "precomputed-tables")]
+vp_table!(vp_g_table_r64, crate::edwards::EdwardsBasepointTableRadix64);
+#[cfg(feature = "precomputed-tables")]
+vp_table!(vp_g_table_r128, crate::edwards::EdwardsBasepointTableRadix128);
+#[cfg(feature = "precomputed-tables")]
+vp_table!(vp_g_table_r256, crate::edwards::EdwardsBasepointTableRadix256);
+include!(concat!(env!("VERIF_HOOK_DIR"), "/../kani/curve_kani.rs"));
